@@ -202,6 +202,8 @@ def drive(mod, configs: list[dict], counts: dict, rule: str, assumptions: list[s
             enabled[k] = enabled.get(k, 0) + 1
         for k, n in s.get("probes", {}).items():
             probes[k] = probes.get(k, 0) + n
+    for k in getattr(mod, "EXPECTED_PROBES", []):
+        probes.setdefault(k, 0)
     wall_s = time.time() - t0
     samples = [s["sample"] for s in done if "sample" in s][:3]
     if not samples and done:
@@ -234,6 +236,7 @@ def drive(mod, configs: list[dict], counts: dict, rule: str, assumptions: list[s
     zero = [k for k, n in cov["reach_probes"].items() if n == 0]
     if zero:
         cov["probes_stuck_at_zero"] = zero
+        print(f"warning: reach probes never hit in this run: {zero}")
     harness.write_evidence(prop, tier, seed, cov, assumptions, wall_s, len(reported))
     print(f"{prop} {tier}: {len(done)}/{count} scenarios, {tot_events} seam events, {len(distinct)} distinct non-trivial, {sum(fired.values())} faults fired, {wall_s:.0f}s")
     return harness.finish(prop, reported, known_lines, harness_errors)
